@@ -237,11 +237,25 @@ var resetters []func()
 // their initial values (generated by the instrumenter).
 func OnReset(f func()) { resetters = append(resetters, f) }
 
+var processStarters []func()
+
+// OnProcessStart registers the generated function that re-initialises a main
+// package (variables in initialisation order, flag definitions, init functions).
+func OnProcessStart(f func()) { processStarters = append(processStarters, f) }
+
 // ResetGlobals runs every registered resetter: what follows behaves like a
-// fresh operating-system process as far as package-level state goes.
+// fresh operating-system process as far as package-level state goes. Library
+// packages get their plain initial values back; main packages are initialised
+// again from scratch, which defines their flags anew on fresh flag sets.
 func ResetGlobals() {
 	for _, f := range resetters {
 		f()
+	}
+	if len(processStarters) > 0 {
+		flagSets = map[string]*stdflag.FlagSet{}
+		for _, f := range processStarters {
+			f()
+		}
 	}
 }
 
@@ -808,6 +822,9 @@ func WriteFile(name string, data []byte) error {
 
 func Getenv(k string) string {
 	p := Cur
+	if p == nil {
+		return "" // program start, before any simulated process exists
+	}
 	p.Steps = append(p.Steps, StepRec{N: len(p.Steps), Kind: SGetenv, Arg: k})
 	return p.Env[k]
 }
